@@ -86,6 +86,9 @@ def client_corpus(tier, seed):
     jobs += tj("str_driver", "snogrow", tier, "dbg", seed, 1, [], monitors_arena=ARENA_VIEW)
     return jobs
 
+# the reference semantics itself as a state machine: ownership conservation, aliasing, panic atomicity, length laws
+COLL_MC = dict(module="CollModel", cfg="CollModel", workers=8, timeout=1200, mem="6g")
+
 def coll_corpus(tier, seed, gens, profiles=("dbg", "rel")):
     jobs = []
     for g in gens:
@@ -155,11 +158,12 @@ def plan_for(pid, tier, seed):
                     assumptions=["TLC", "footer-store hook (__verif::footer_store) sees every store into a chunk footer",
                                  "data races only on crate-level shared state (chunk footers, the static empty chunk); reads are not hooked"])
     if pid == "C14":
-        return dict(level="model_checking", mc=[], traces=str_corpus(tier, seed, ["sops", "decoders", "srandom", "snogrow"]), special=[],
+        return dict(level="model_checking", mc=[dict(module="StrModel", cfg="StrModel", workers=4, timeout=900)],
+                    traces=str_corpus(tier, seed, ["sops", "decoders", "srandom", "snogrow"]), special=[],
                     assumptions=["TLC and the Json/IOUtils community modules",
                                  "the reference semantics Str.tla incl. the transcribed UTF-8/UTF-16 decoders (cross-validated against std on every input)"])
     if pid == "C16":
-        return dict(level="model_checking", mc=[], special=[],
+        return dict(level="model_checking", mc=[COLL_MC], special=[],
                     traces=coll_corpus(tier, seed, COLL_GENS[pid]) + str_corpus(tier, seed, ["spanics", "srandom"])
                            + arena_corpus(tier, seed, ["apanics"]),
                     assumptions=["TLC and the Json/IOUtils community modules", "Coll.tla / Str.tla reference semantics (cross-validated against std)",
@@ -171,7 +175,7 @@ def plan_for(pid, tier, seed):
                 extra += tj("collx_driver", "zst", tier, prof, seed, 1, ["CollTrace"], max_events=25000, monitors_arena=ARENA_VIEW)
                 if pid == "C13":
                     extra += tj("collx_driver", "copyops", tier, prof, seed, 1, ["CollTrace"], max_events=25000, monitors_arena=ARENA_VIEW)
-        return dict(level="model_checking", mc=[], traces=coll_corpus(tier, seed, COLL_GENS[pid]) + extra, special=[],
+        return dict(level="model_checking", mc=[COLL_MC], traces=coll_corpus(tier, seed, COLL_GENS[pid]) + extra, special=[],
                     assumptions=["TLC and the Json/IOUtils community modules",
                                  "the reference semantics Coll.tla (cross-validated: the same formulas accept std's own Vec/Box on the same programs)",
                                  "Tracked elements' drop ledger (harness)"])
